@@ -402,6 +402,80 @@ static void run_pool(Rng& g, long nops, std::size_t node_size, std::size_t block
                 }
             }
             ++n_cycles;
+            if (arrays && g.chance(50))
+            { // ... and neither does repeating a cycle with ONE array live at a time (any list type: the released run is found again)
+                std::size_t cnt = 2 + g.below(4);
+                long        blocks_after_first = 0;
+                int         reps = 4 + int(g.below(24));
+                for (int rep = 0; rep < reps; ++rep)
+                {
+                    void*       p = nullptr;
+                    std::string res = guarded([&] { p = pool->allocate_array(cnt); });
+                    emit(fmt("pool alloc_array %zu", cnt), res.empty() ? fmt("ok %zu", R->off(p)) : res, pool_state(*pool));
+                    if (!res.empty())
+                        break;
+                    if (rep == 0)
+                        blocks_after_first = R->n_alloc;
+                    else if (R->n_alloc != blocks_after_first && R->n_fail == 0)
+                    {
+                        O->fail(fmt("repeating a cycle of one allocate_array(%zu) / deallocate_array grew the pool (repetition %d) although "
+                                    "capacity_left was %zu nodes",
+                                    cnt, rep, pool->capacity_left() / ns));
+                        pool->deallocate_array(p, cnt);
+                        emit(fmt("pool dealloc_array %zu %zu", R->off(p), cnt), "done", pool_state(*pool));
+                        break;
+                    }
+                    std::memset(p, 0x6b, cnt * ns);
+                    pool->deallocate_array(p, cnt);
+                    emit(fmt("pool dealloc_array %zu %zu", R->off(p), cnt), "done", pool_state(*pool));
+                }
+                ++n_cycles;
+            }
+        }
+        else if (k >= 84 && k < 88 && arrays && older == nullptr && g.chance(40))
+        { // cursor drill (ordered list: last_dealloc_/last_dealloc_prev_ around an array that is taken): K nodes, a seeded subset
+          // released in seeded order, an array allocation, then the neighbours of the array are released
+            std::vector<long> mine;
+            std::size_t       K = 8 + g.below(9);
+            for (std::size_t q = 0; q < K; ++q)
+            {
+                void*       p = nullptr;
+                std::string res = guarded([&] { p = pool->allocate_node(); });
+                emit("pool alloc_node", res.empty() ? fmt("ok %zu", R->off(p)) : res, pool_state(*pool));
+                if (!res.empty())
+                    break;
+                add_live(p, false, 1, ns, false, "drill.allocate_node");
+                mine.push_back(live.back().id);
+            }
+            auto release_id = [&](long id)
+            {
+                for (std::size_t q = 0; q < live.size(); ++q)
+                    if (live[q].id == id)
+                    {
+                        release(q);
+                        return;
+                    }
+            };
+            // release about half, in seeded order; keep the rest live (their content is watched by the oracle)
+            std::vector<long> order = mine;
+            for (std::size_t q = order.size(); q > 1; --q)
+                std::swap(order[q - 1], order[g.below(q)]);
+            std::size_t nrel = order.size() / 2 + g.below(order.size() / 4 + 1);
+            for (std::size_t q = 0; q < nrel && q < order.size(); ++q)
+                release_id(order[q]);
+            // an array that has to be carved out of what was just released
+            {
+                std::size_t cnt = 2 + g.below(2);
+                void*       p = nullptr;
+                std::string res = guarded([&] { p = pool->allocate_array(cnt); });
+                emit(fmt("pool alloc_array %zu", cnt), res.empty() ? fmt("ok %zu", R->off(p)) : res, pool_state(*pool));
+                if (res.empty())
+                    add_live(p, true, cnt, ns, false, "drill.allocate_array");
+            }
+            // now the remaining nodes of the drill go back, again in seeded order (neighbours of the array included)
+            for (std::size_t q = nrel; q < order.size(); ++q)
+                release_id(order[q]);
+            O->verify_all("after cursor drill");
         }
         else if (k < 88 && older != nullptr && g.chance(35))
         { // std::swap's three moves: tmp(move(a)); a = move(b); b = move(tmp) - each assignment targets a MOVED-FROM pool
